@@ -267,6 +267,33 @@ func GenGenesis(t *rapid.T, prof *Profile) GenesisSpec {
 			doc["regen.ecocredit.v1.BatchSequence"] = mustJSON([]map[string]interface{}{
 				{"project_key": "1", "next_sequence": "999"}, {"project_key": "3", "next_sequence": "2"}})
 			g.Notes = append(g.Notes, "legacy-batches{3 batches, omitted zero amounts}")
+			if draw("g.legacybaskets", 3) != 0 {
+				// baskets carried over as well: one holding credits of two batches (one entry an explicit zero, which
+				// state validation accepts and no handler ever writes), one that was emptied; the tokens are in
+				// circulation, so the bank supply of the basket denoms is part of the configuration
+				zero := []string{"0", "0.000000", "0.0"}[draw("g.legacybaskets.zero", 3)]
+				doc["regen.ecocredit.basket.v1.Basket"] = mustJSON([]interface{}{2,
+					map[string]interface{}{"id": "1", "basket_denom": "eco.uC.LEG", "name": "LEG", "disable_auto_retire": draw("g.legacybaskets.dar", 2) == 1,
+						"credit_type_abbrev": "C", "exponent": 6, "curator": b64(accts[1])},
+					map[string]interface{}{"id": "2", "basket_denom": "eco.uC.OLD", "name": "OLD", "disable_auto_retire": true,
+						"credit_type_abbrev": "C", "exponent": 6, "curator": b64(accts[0]),
+						"date_criteria": map[string]interface{}{"min_start_date": "2019-06-01T00:00:00Z"}},
+				})
+				doc["regen.ecocredit.basket.v1.BasketClass"] = mustJSON([]map[string]interface{}{
+					{"basket_id": "1", "class_id": "C10"}, {"basket_id": "1", "class_id": "C100"}, {"basket_id": "2", "class_id": "C10"}})
+				doc["regen.ecocredit.basket.v1.BasketBalance"] = mustJSON([]map[string]interface{}{
+					{"basket_id": "1", "batch_denom": "C10-100-20200101-20210101-001", "balance": "10.25", "batch_start_date": "2020-01-01T00:00:00Z"},
+					{"basket_id": "1", "batch_denom": "C100-001-20190101-20200101-001", "balance": zero, "batch_start_date": "2019-01-01T00:00:00Z"},
+					{"basket_id": "2", "batch_denom": "C10-100-20200101-20210101-001", "balance": zero, "batch_start_date": "2020-01-01T00:00:00Z"},
+				})
+				doc["regen.ecocredit.v1.BatchSupply"] = mustJSON([]map[string]interface{}{
+					{"batch_key": "1", "tradable_amount": "70.25", "retired_amount": "50"},
+					{"batch_key": "2", "retired_amount": "7", "cancelled_amount": "0"},
+					{"batch_key": "3", "tradable_amount": "100.5"},
+				})
+				g.Funds = append(g.Funds, Fund{Addr: accts[1].String(), Coins: "10000000eco.uC.LEG"}, Fund{Addr: accts[4].String(), Coins: "250000eco.uC.LEG"})
+				g.Notes = append(g.Notes, "legacy-baskets{LEG holds 10.25 of batch 1 and an explicit zero entry, OLD emptied with a zero entry}")
+			}
 		}
 	} else {
 		switch draw("g.classseq", 4) {
